@@ -1,9 +1,12 @@
 #!/bin/sh
 # tools/seedtest.sh <patch.diff> <Cxx> [tier]: apply a seeded change to /repo, run the check, undo the change.
+# The evidence file of the property is saved and restored (evidence committed must come from the unchanged tree).
 P="$1"; ID="$2"; TIER="${3:-quick}"
 cd /verif
 git -C /repo diff --quiet || { echo "repo dirty"; exit 9; }
 git -C /repo apply "$P" || { echo "PATCH DOES NOT APPLY"; exit 8; }
+cp evidence/$ID.json /tmp/evidence.$ID.saved 2>/dev/null
 ./check "$ID" --tier "$TIER" 2>&1 | grep -E "^(VIOLATION|KNOWN|UNDECIDED|CHECKER|C[0-9]+ tier)" | cut -c1-260
-rc=$?
 git -C /repo checkout -- .
+[ -f /tmp/evidence.$ID.saved ] && mv /tmp/evidence.$ID.saved evidence/$ID.json
+rm -rf replays/$ID
